@@ -205,7 +205,7 @@ TRankVecs(n) == {r \in [1..n -> 1..TMaxRank] : ProdSeq(r) <= TMaxCore}
 Modes0(s) == 0..(Len(s) - 1)
 BaseCfg == [op |-> "none", kind |-> "cp", shape |-> <<>>, rank |-> <<>>, family |-> "generic", how |-> "function",
             mode |-> 0, operand |-> "none", odim |-> 0, keep |-> FALSE, copy |-> FALSE, npad |-> 0, padb |-> FALSE,
-            lens |-> <<>>, maxrank |-> 0, thr |-> 0, listin |-> FALSE, mag |-> 0, omix |-> "none", steps |-> <<>>, grade |-> 0, negmode |-> FALSE, cmix |-> "none"]
+            lens |-> <<>>, maxrank |-> 0, thr |-> 0, listin |-> FALSE, mag |-> 0, omix |-> "none", steps |-> <<>>, grade |-> 0, negmode |-> FALSE, cmix |-> "none", copyopt |-> "default"]
 \* call form / aliasing / special zero values: rotated over the configurations in TExpand (see Factorized.tla, Expand)
 HasWideOther(s, m) == \E k \in 1..Len(s) : k # m + 1 /\ s[k] >= 2
 P2Cfgs(R) == {<<js, K>> : js \in {j \in [1..2 -> 1..3] : \A i \in 1..2 : j[i] >= R}, K \in 1..3}
@@ -237,6 +237,15 @@ TCfgs(root) ==
       [] root.op = "pad_ttm" ->
             {[BaseCfg EXCEPT !.op = "pad_tt_rank", !.kind = "ttm", !.shape = s, !.rank = <<1>> \o r \o <<1>>, !.npad = n] :
                  r \in [1..((N \div 2) - 1) -> 1..2], n \in 1..2}
+      [] root.op = "refused" ->
+            \* A REFUSED call: cp_mode_dot / tucker_mode_dot (function on a tuple, function on the wrapper, wrapper method)
+            \* with an operand that does not fit the mode (matrix with a wrong column count / vector of a wrong length),
+            \* keep_dim on / off, copy = "default" (not passed), "true" or "false".  The call must raise, and the caller's
+            \* tuple / object must be exactly what it was: same represented tensor, same number of factors, same .shape.
+            {[BaseCfg EXCEPT !.op = "refused", !.kind = kd, !.shape = s, !.rank = IF kd = "cp" THEN <<r>> ELSE [k \in 1..N |-> 1 + ((k + r) % 2)],
+                             !.mode = m, !.operand = o, !.keep = kp, !.copyopt = cp, !.how = h] :
+                 kd \in {"cp", "tucker"}, r \in {2}, m \in Modes0(s), o \in {"matrix", "vector"}, kp \in BOOLEAN,
+                 cp \in {"default", "true", "false"}, h \in {"tuple", "object", "method"}}
       [] root.op = "sequence" ->
             \* SEQUENCES of transforms applied to ONE CPTensor object (each step judged by its own clause):
             \*   "N" obj.normalize()                    "M" cp_mode_dot(obj, matrix, mode, copy=False)  (in place, same object)
@@ -279,7 +288,7 @@ TCfgs(root) ==
                  r \in {root.rank}, x \in {y \in P2Cfgs(root.rank) : y[2] >= root.rank}, mr \in {0, root.rank, 3}, t \in {0, 1}}
 
 TRoots ==
-    {[op |-> "sequence", shape |-> s, rank |-> 0] : s \in {x \in TShapes : Size(x) <= TModeDotSize}} \cup
+    {[op |-> o, shape |-> s, rank |-> 0] : o \in {"sequence", "refused"}, s \in {x \in TShapes : Size(x) <= TModeDotSize}} \cup
     {[op |-> o, shape |-> s, rank |-> 0] : o \in {"normalize", "cp_flip_sign", "cp_permute_factors", "pad_tt_rank"}, s \in TShapes}
     \cup {[op |-> "mode_dot", shape |-> s, rank |-> 0] : s \in {x \in TShapes : Size(x) <= TModeDotSize}}
     \cup {[op |-> "pad_ttm", shape |-> s, rank |-> 0] : s \in {x \in [1..4 -> 1..2] : TRUE} \cup [1..2 -> 1..2]}
@@ -302,6 +311,7 @@ HowNames    == <<"function", "method", "tuple", "object">>
 Checksum(c) == SumSeq(c.shape) * 7 + SumSeq(c.rank) * 3 + c.mode * 5 + c.odim + c.npad * 2
                + (IF c.keep THEN 1 ELSE 0) + (IF c.copy THEN 2 ELSE 0) + (IF c.padb THEN 3 ELSE 0)
                + IdxIn(c.family, FamilyNames) + 4 * IdxIn(c.how, HowNames) + Len(c.shape) + Len(c.steps)
+               + (IF c.copyopt = "true" THEN 1 ELSE IF c.copyopt = "false" THEN 2 ELSE 0) + (IF c.operand = "vector" THEN 3 ELSE 0)
 TPlain(c) == c.kind \in {"cp", "tucker"} /\ c.family = "generic" /\ c.mag = 0 /\ c.omix = "none" /\ c.op # "cp_permute_factors"
 TExpand(c) ==
     c @@ [fshapes |-> TFactorShapes(c),
